@@ -25,7 +25,7 @@ CHECKS.update({
    note="Cascade is modelled as settled before the next client step except in VDeleteCut; interleaving of client links with a running cascade is not enumerated (C13).", ref="6 C12"),
  "C14": dict(engine="kektor-writer", technique="TLC on Writer.tla (clients journal/apply split x lazy writer goroutine x SaveSnapshot/RewriteAOF phases x Flush x Close; Inv_NoAckedLoss, Inv_Conservation, Prop_FlushCovers) + complete TLC behaviours forced onto the real engine with blocking hooks, then Close/Open and acked-vs-recovered comparison",
    text="Every interleaving at channel-operation granularity within 2 clients x 1-3 versions x 1-2 admin procedures is checked by TLC; each complete behaviour is replayed as a forced schedule on the real engine (clients parked between journal and apply, admin goroutine parked between phases) and acknowledged writes are compared with what a restart reads.",
-   note="Writer-internal steps (Recv, Tick) are left to the Go scheduler during replay. Known finding KF-C14-1 (journal/apply gap at Begin) is carried as a named deviation in the spec.", ref="6 C14"),
+   note="Writer-internal steps (Recv, Tick) are left to the Go scheduler during replay. The journal/apply gap at Begin (former KF-C14-1, repaired by 1e83c14) is kept as the configuration CaptureWaits=FALSE whose counterexample TLC must still find; the faithful configuration has CaptureWaits=TRUE. Also: Prop_FlushCovers on the real LazyAOFWriter with maxBufferSize 1-3 (wflush), a snapshot failing after Begin (A_Fail), capture.kv event bound to A_Capture.", ref="6 C14"),
  "C15": dict(engine="decay", technique="TLC on Decay.tla (decay factor as exact/bound case analysis; Inv_FnLaws, Inv_MemLaws; Reinforce machine) + one implementation test per TLC state: unexported decay functions via go test -overlay, twin memories and Reinforce behaviours on a real engine",
    text="TLC enumerates the product of ages, half-lives, access counts, models, pinned forms, layer situations and number types, checks bounds/monotonicity/model points/reinforcement laws on the spec's own rational table and emits every state; each is executed on the real code and compared with exact expectations or order constraints.",
    note="Ebbinghaus and unknown models by bounds/order only. Similarity itself is C18. Built by a sub-agent; see its report in DESIGN.md.", ref="6 C15"),
